@@ -4,7 +4,7 @@
 # repository's baseline tests there, builds the harness against the copy (cargo `paths`
 # override, separate target dir) and runs the quick check of each ID. Prints one line per ID:
 #   <patch> <ID> DETECTED|MISSED|MACHINERY (exit code)
-# Removes the scratch copy afterwards (the shared target dirs under /tmp/cwmt-* are caches only).
+# Removes the scratch copy afterwards (the target dirs under /tmp/cwmt-* are caches only).
 set -u
 BASELINE=0; DEMO=""; DEMOFEAT=""
 while true; do
@@ -18,6 +18,8 @@ done
 PATCH=$(readlink -f "$1"); shift
 NAME=$(basename "$PATCH" .diff); [ "$NAME" = patch ] && NAME=$(basename "$(dirname "$PATCH")")
 export CARGO_NET_OFFLINE=true
+# SELFTEST_LANE=<suffix>: own build caches, so that several invocations can run side by side
+LANE=${SELFTEST_LANE:-}
 SCR=$(mktemp -d /tmp/cwmt-mut-XXXXXX)
 OUT=$(mktemp -d /tmp/cwmt-out-XXXXXX)
 trap 'rm -rf "$SCR" "$OUT"' EXIT
@@ -26,11 +28,11 @@ git -C /repo archive HEAD | tar -x -C "$SCR"
 # the target dirs are shared between invocations, so make the sources newer than any artefact
 # and drop this package's old artefacts
 find "$SCR" -type f -exec touch {} +
-( cd "$SCR" && CARGO_TARGET_DIR=/tmp/cwmt-base-target cargo clean -p cw-multi-test --offline >/dev/null 2>&1; CARGO_TARGET_DIR=/tmp/cwmt-mc-target cargo clean -p cw-multi-test --release --offline >/dev/null 2>&1 )
+( cd "$SCR" && CARGO_TARGET_DIR=/tmp/cwmt-base-target$LANE cargo clean -p cw-multi-test --offline >/dev/null 2>&1; CARGO_TARGET_DIR=/tmp/cwmt-mc-target$LANE cargo clean -p cw-multi-test --release --offline >/dev/null 2>&1 )
 if [ -n "$DEMO" ]; then
   # the demonstration must pass on the unchanged tree ...
   cp "$DEMO" "$SCR/tests/seed_demo.rs"
-  if ( cd "$SCR" && CARGO_TARGET_DIR=/tmp/cwmt-base-target cargo test --offline $DEMOFEAT --test seed_demo >"$OUT/demo0.log" 2>&1 ); then echo "$NAME demo without change: PASS"; else echo "$NAME demo without change: FAIL (unexpected)"; tail -5 "$OUT/demo0.log"; fi
+  if ( cd "$SCR" && CARGO_TARGET_DIR=/tmp/cwmt-base-target$LANE cargo test --offline $DEMOFEAT --test seed_demo >"$OUT/demo0.log" 2>&1 ); then echo "$NAME demo without change: PASS"; else echo "$NAME demo without change: FAIL (unexpected)"; tail -5 "$OUT/demo0.log"; fi
   rm "$SCR/tests/seed_demo.rs"
 fi
 if ! patch -s -p1 -d "$SCR" < "$PATCH"; then echo "$NAME PATCH-FAILED"; exit 3; fi
@@ -38,11 +40,11 @@ sleep 1; find "$SCR/src" -type f -exec touch {} +
 if [ -n "$DEMO" ]; then
   # ... and fail with the change
   cp "$DEMO" "$SCR/tests/seed_demo.rs"
-  if ( cd "$SCR" && CARGO_TARGET_DIR=/tmp/cwmt-base-target cargo test --offline $DEMOFEAT --test seed_demo >"$OUT/demo1.log" 2>&1 ); then echo "$NAME demo with change: PASS (unexpected)"; else echo "$NAME demo with change: FAIL as expected ($(grep -E '^test result' "$OUT/demo1.log" | head -1))"; fi
+  if ( cd "$SCR" && CARGO_TARGET_DIR=/tmp/cwmt-base-target$LANE cargo test --offline $DEMOFEAT --test seed_demo >"$OUT/demo1.log" 2>&1 ); then echo "$NAME demo with change: PASS (unexpected)"; else echo "$NAME demo with change: FAIL as expected ($(grep -E '^test result' "$OUT/demo1.log" | head -1))"; fi
   rm "$SCR/tests/seed_demo.rs"
 fi
 if [ $BASELINE = 1 ]; then
-  if ( cd "$SCR" && CARGO_TARGET_DIR=/tmp/cwmt-base-target cargo test --workspace --no-fail-fast --offline >"$OUT/base.log" 2>&1 ); then
+  if ( cd "$SCR" && CARGO_TARGET_DIR=/tmp/cwmt-base-target$LANE cargo test --workspace --no-fail-fast --offline >"$OUT/base.log" 2>&1 ); then
     echo "$NAME baseline: PASS ($(grep -c '^test .* ok$' "$OUT/base.log") tests ok)"
   else
     echo "$NAME baseline: FAIL"; grep -E "^test .* FAILED|^error" "$OUT/base.log" | head
@@ -52,12 +54,12 @@ fi
 # (taken from the committed HEAD of /verif, never from the working tree)
 git -C /verif archive HEAD mc | tar -x -C "$OUT"
 sed -i 's#env!("CARGO_MANIFEST_DIR"), "/.."#"/verif"#' "$OUT/mc/src/common.rs"
-if ! ( cd "$OUT/mc" && CARGO_TARGET_DIR=/tmp/cwmt-mc-target cargo build --release --offline --config "paths=[\"$SCR\"]" >"$OUT/build.log" 2>&1 ); then
+if ! ( cd "$OUT/mc" && CARGO_TARGET_DIR=/tmp/cwmt-mc-target$LANE cargo build --release --offline --config "paths=[\"$SCR\"]" >"$OUT/build.log" 2>&1 ); then
   echo "$NAME BUILD-FAILED"; grep -E "^error" -A8 "$OUT/build.log" | head -30; exit 3
 fi
 mkdir -p "$OUT/root"; cp /verif/known_findings.json "$OUT/root/"
 for ID in "$@"; do
-  VERIF_ROOT="$OUT/root" timeout 900 /tmp/cwmt-mc-target/release/mc "$ID" quick >"$OUT/$ID.log" 2>&1
+  VERIF_ROOT="$OUT/root" timeout 900 /tmp/cwmt-mc-target$LANE/release/mc "$ID" quick >"$OUT/$ID.log" 2>&1
   rc=$?
   case $rc in
     1) echo "$NAME $ID DETECTED ($(grep -c '^VIOLATION' "$OUT/$ID.log") classes: $(grep 'class=' "$OUT/$ID.log" | sed 's/.*class=\([^ ]*\).*/\1/' | head -4 | tr '\n' ' '))";;
